@@ -21,6 +21,8 @@ import SeedProofs.Lemmas.C13Bind
 import SeedProofs.Lemmas.C14Scope
 import SeedProofs.Lemmas.C14This
 import SeedProofs.Lemmas.C14ThisPat
+import SeedProofs.Lemmas.C11Prog3
+import SeedProofs.C11
 namespace Seed.C14
 open Seed Gen
 
@@ -878,6 +880,28 @@ example : c!"this" ∉ patVars (.mk (.List [.mk (.mk (.Var c!"x") (1, 6)) false,
 
 /-- (4) assignment replaces the source together with the value -/
 example : (run 100 c!"t.sd" (progObjs ++ c!"h := a.get;\nh = b.get;\nprint(h());\nh = a.get;\nprint(h());\n")).out =
+    [c!"2", c!"1"] := by decide +kernel
+
+/-! ### function values through a range assignment -/
+
+/-- the items a list contributes as the right-hand side of `xs[a:b] = ys` are its stored items — each with the source it
+    was stored with -/
+theorem range_rhs_keeps_sources (σ : State) (b : Addr) : rangeRhs σ (.list b) = σ.getList b := rfl
+
+/-- … and the range assignment stores them unchanged: position `lo + i` of the target holds item `i` of the right-hand
+    side, value *and* source (a method read from an object and assigned through a range is later called with that object
+    as `this`, like one stored by `xs[i] = o.f`) -/
+theorem range_assign_keeps_item (xs ys : List SVal) (lo i : Nat) (h : lo + ys.length ≤ xs.length) (hi : i < ys.length) :
+    (listSplice xs lo ys)[lo + i]? = ys[i]? := by
+  rw [C11.listSplice_get xs ys lo (lo + i) h, if_neg (by omega), if_pos (by omega)]
+  congr 1; omega
+
+/-- (5) a method stored through a range assignment keeps its object -/
+example : (run 100 c!"t.sd" (progObjs ++ c!"hs := [0, 0];
+hs[0:2] = [b.get, a.get];
+print(hs[0]());
+print(hs[1]());
+")).out =
     [c!"2", c!"1"] := by decide +kernel
 
 end Seed.C14
